@@ -377,6 +377,27 @@ def rule_d(ctx, sa, fa, ta, acc_f, acc_t, setup, ls):
     ctx.ob(R, ls.qname, "set-up is skipped only when reuse is requested and a solver exists (flag assigned once)", len(flag) == 1, norm(flag[0].value) if flag else "", ls.node)
 
 
+def rule_e(ctx):
+    R = "C08.e"
+    ctx.rule(R, "the iterative back-ends stop on a relative criterion by default: the option dict handed to scipy's cg carries atol = "
+             "linear_solver_options.get('atol', 0) -- with a non-zero default absolute tolerance a right-hand side of small norm is 'solved' "
+             "by the zero vector, while the direct back-end is homogeneous in the right-hand side")
+    m = ctx.model
+    f = m.method(m.cls(WAS, BASE), "setup_cg_solver")
+    ctx.instance(R)
+    dicts = [s_ for s_ in ast.walk(f.node) if isinstance(s_, ast.Assign) and self_attr(s_.targets[0]) == "solver_options" and isinstance(s_.value, ast.Dict)]
+    ctx.need(len(dicts) == 1, f"{f.qname}: assignment of self.solver_options = {{...}} not found")
+    ent = {k.value: expand(f.node, v) for k, v in zip(dicts[0].value.keys, dicts[0].value.values) if isinstance(k, ast.Constant)}
+    a = ent.get("atol")
+    ok = isinstance(a, ast.Call) and isinstance(a.func, ast.Attribute) and a.func.attr == "get" and len(a.args) == 2 and isinstance(a.args[0], ast.Constant) and a.args[0].value == "atol" \
+        and isinstance(a.args[1], ast.Constant) and a.args[1].value == 0 and norm(a.func.value) == "self.options.get('linear_solver_options', {})"
+    ctx.ob(R, f.qname, "cg: atol defaults to 0 (relative stopping only)", ok, norm(a) if a is not None else "no atol entry", dicts[0])
+    r = ent.get("rtol")
+    ok = isinstance(r, ast.Call) and isinstance(r.func, ast.Attribute) and r.func.attr == "get" and len(r.args) == 2 and isinstance(r.args[0], ast.Constant) and r.args[0].value == "rtol"
+    ctx.ob(R, f.qname, "cg: rtol is read from the option of that name", ok, norm(r) if r is not None else "no rtol entry", dicts[0])
+    ctx.floor(R, 1)
+
+
 def run(ctx):
     m = ctx.model
     ctx.consult(WAS)
@@ -386,3 +407,9 @@ def run(ctx):
     rule_b(ctx, sa, fa, acc_f, setup, ls)
     rule_c(ctx, sa, fa, acc_f, ls)
     rule_d(ctx, sa, fa, ta, acc_f, acc_t, setup, ls)
+    rule_e(ctx)
+    # callers of linear_solve: a reused factorisation must belong to the matrix being solved (C04.g)
+    from . import c04
+    from .common import shared
+
+    shared(ctx, "C08.d", c04.rule_g, why="reuse_solver=True applies the cached factorisation to whatever matrix is passed: every caller must have set a fresh solver up for that matrix")
